@@ -489,7 +489,7 @@ def read_repair(op, world, design, ctx):
         heap = float("inf")      # the natural way to ask for an unrestrictive limit
     kwargs = dict(dna_sequence=read, accessor=design.accessor(world.proxy), start_index=_start(op),
                   observed_length=k, vt_check=op.get("check"), has_indel=op.get("has_indel", False), heap_size=heap)
-    row_bound, jumps = repair_bounds(len(read), k, 1000 if heap == float("inf") else heap)
+    row_bound, jumps = repair_bounds(len(read), k, 20000 if heap == float("inf") else heap)
     ctx.stats.lib_calls += 1
     out = budgeted(dsw.repair_dna, kwargs, jumps * ctx.budget_scale, row_bound if world.proxy else None)
     rec = {"out": out.brief(), "res": sha(norm_result(out.value))[:16] if out.kind == "returned" else None}
@@ -684,6 +684,12 @@ def oracle_c08(op, design, out, ctx):
                                            "indel" if has_indel else "subonly"))
 
 
+def _typed(op, n):
+    """Check lengths reach the library as Python ints or as numpy integer scalars (both are integers)."""
+    t = op.get("ntype")
+    return getattr(numpy, t)(n) if t else n
+
+
 def op_setvt(op, world, ctx):
     """C07 clause (i): the documented formula, on any ACGT strand, for any check length >= 1."""
     dsw, strand = world.dsw, op["strand"]
@@ -691,9 +697,12 @@ def op_setvt(op, world, ctx):
     hashes = []
     for n in op["ns"]:
         ctx.stats.lib_calls += 1
-        out = SC.call(dsw.set_vt, dict(dna_sequence=strand, vt_length=n), jump_budget=200000 + 200 * (len(strand) + n))
+        out = SC.call(dsw.set_vt, dict(dna_sequence=strand, vt_length=_typed(op, n)),
+                      jump_budget=200000 + 200 * (len(strand) + n))
         ctx.stats.nonvacuous += 1
-        det = {"n_strand": len(strand), "vt_length": n, "empty": len(strand) == 0}
+        det = {"n_strand": len(strand), "vt_length": n, "empty": len(strand) == 0, "ntype": op.get("ntype")}
+        if op.get("ntype"):
+            ctx.stats.inc("probes", "c07:numpy-typed-length")
         if out.kind != "returned":
             ctx.fail("formula", "set_vt(len %d strand, %d) did not return: %s %s: %s" %
                      (len(strand), n, out.kind, out.exc_type or out.which, out.exc_msg or ""),
@@ -745,8 +754,13 @@ def op_vtscan(op, world, ctx):
     acc = design.accessor(world.proxy)
     originals = {}
     for n in op["ns"]:
-        out = SC.call(dsw.set_vt, dict(dna_sequence=strand, vt_length=n), jump_budget=10 ** 6)
+        out = SC.call(dsw.set_vt, dict(dna_sequence=strand, vt_length=_typed(op, n)), jump_budget=10 ** 6)
         st.lib_calls += 1
+        if out.kind == "returned" and isinstance(out.value, str) and out.value != M.vt(strand, n):
+            ctx.fail("formula", "set_vt(%r, %s%d) = %r, documented value %r" %
+                     (strand[:40], (op.get("ntype") or "") + " ", n, out.value, M.vt(strand, n)),
+                     n_strand=len(strand), vt_length=n, ntype=op.get("ntype"))
+            return {"out": out.brief(), "res": None}
         if out.kind != "returned" or not isinstance(out.value, str):
             ctx.fail("formula", "set_vt(len %d strand, %d) did not return a string: %s %s" %
                      (len(strand), n, out.exc_type or out.kind, out.exc_msg or ""), exc=out.exc_type or out.kind,
@@ -779,8 +793,8 @@ def op_vtscan(op, world, ctx):
         st.inc("faults", {"S": "SUB", "I": "INS", "D": "DEL"}[kind] + ("" if asserted else "-A"))
         for n in op["ns"]:
             st.lib_calls += 1
-            out = SC.call(dsw.set_vt, dict(dna_sequence=corrupted, vt_length=n), jump_budget=10 ** 6)
-            det = {"n_strand": len(strand), "vt_length": n, "edit": kind, "nt": nt,
+            out = SC.call(dsw.set_vt, dict(dna_sequence=corrupted, vt_length=_typed(op, n)), jump_budget=10 ** 6)
+            det = {"n_strand": len(strand), "vt_length": n, "edit": kind, "nt": nt, "ntype": op.get("ntype"),
                    "pos_class": F.classify_position(min(p, max(len(strand) - 1, 0)), max(len(strand), 1), design.k)}
             if out.kind != "returned" or out.value != M.vt(corrupted, n):
                 return _fail_rec(ctx, "formula", "set_vt(%r, %d) = %r, documented value %r" %
